@@ -502,3 +502,43 @@ func ConcurrentPairs(level int) [][2]Operand {
 	}
 	return out
 }
+
+// TJunctionPairs: B ends (or has a vertex) exactly on the interior of a long edge of A, at every
+// integer position of edges of length 22 and 26 — positions p/L that are not dyadic, so a touch
+// point that is recomputed from the crossing formula instead of taken from the vertex comes out
+// an ulp away from it. A is the square (as Polygon or as its boundary LineString); B is a segment
+// arriving from outside, a segment leaving inwards, or a triangle standing on the edge.
+func TJunctionPairs(level int) [][2]Operand {
+	id := universe.Identity
+	sizes := []int{22}
+	if level > 0 {
+		sizes = append(sizes, 26)
+	}
+	var out [][2]Operand
+	for _, S := range sizes {
+		ring := []universe.LPt{{0, 0}, {S, 0}, {S, S}, {0, S}, {0, 0}}
+		ringCW := []universe.LPt{{0, 0}, {0, S}, {S, S}, {S, 0}, {0, 0}}
+		as := []Operand{mkOp(id.Polygon(ring).AsGeometry(), "poly"), mkOp(id.Polygon(ringCW).AsGeometry(), "poly"), mkOp(id.Line(ring).AsGeometry(), "path")}
+		for p := 2; p <= S-2; p++ {
+			bs := []geom.Geometry{
+				id.Line([]universe.LPt{{p, 0}, {p + 2, -5}}).AsGeometry(),                               // from outside, bottom edge
+				id.Line([]universe.LPt{{p - 1, 4}, {p, 0}}).AsGeometry(),                                // from inside, ends on the bottom edge
+				id.Line([]universe.LPt{{S + 4, p + 1}, {S, p}, {S + 4, p - 1}}).AsGeometry(),            // a vertex (not an end) on the right edge
+				id.Polygon([]universe.LPt{{p, S}, {p + 1, S + 3}, {p - 1, S + 3}, {p, S}}).AsGeometry(), // triangle standing on the top edge, outside
+				id.Polygon([]universe.LPt{{0, p}, {3, p - 1}, {3, p + 1}, {0, p}}).AsGeometry(),         // triangle inside, apex on the left edge
+				id.Point(universe.LPt{X: p, Y: S}).AsGeometry(),
+			}
+			for bi, b := range bs {
+				a := as[(p+bi)%len(as)]
+				if level > 0 {
+					for _, a := range as {
+						out = append(out, [2]Operand{a, mkOp(b, "tj")})
+					}
+					continue
+				}
+				out = append(out, [2]Operand{a, mkOp(b, "tj")})
+			}
+		}
+	}
+	return out
+}
